@@ -40,6 +40,7 @@ def drive (d : DSt) (toks : List String) : DSt × String :=
       if (d.th.users.get name).isSome then (d, "err dup")
       else ({ th := { d.th with users := d.th.users ++ [(name, { cap := cap, qsize := q })] } }, "ok")
     | _, _ => (d, "bad-op")
+  | ["reattach"] => ({ th := d.th.reattach }, "ok")
   | "add" :: name :: rest =>
     match kv rest "cond", (kv rest "min_size").bind String.toInt?,
           (kv rest "min_new").bind String.toInt?, (kv rest "prev").bind parseExt with
